@@ -66,8 +66,9 @@ def run(model, rep, tier):
             # a comparison of two *different* fields is a definite violation; anything else is undecidable
             mism = [u for u in info.unrecognised if _is_field_mismatch(u)]
             for u in mism:
-                rep.ob('eq-same-field', mod, eq, u, False, 'compares different fields of self and other: equality '
-                                                          'is then neither reflexive nor symmetric', engine='eqhash')
+                rep.ob('eq-same-field', mod, eq, u, False, 'does not compare the same field of self and of other (different '
+                                                          'fields, or one operand with itself): values that differ in this '
+                                                          'field compare equal, or equality is not symmetric', engine='eqhash')
             rest = [u for u in info.unrecognised if u not in mism]
             if rest:
                 raise AnalysisError('%s.%s.__eq__: comparison not recognised: %s' % (mname, cname, '; '.join(rest)))
@@ -154,8 +155,8 @@ def _is_field_mismatch(text):
             pairs.append((c.args[0], c.args[1]))
     for l, r in pairs:
         fl, fr = eqhash._self_other_field(l), eqhash._self_other_field(r)
-        if fl and fr and fl[1] != fr[1]:
-            return True
+        if fl and fr and (fl[1] != fr[1] or fl[0] == fr[0]):
+            return True  # different fields, or a field compared with itself (self.f vs self.f)
     return False
 
 
@@ -314,3 +315,29 @@ def _arith(model, rep):
 def _subst(node, sigma):
     from ..engines.linform import rename
     return rename(node, sigma)
+
+
+BREAKERS = [
+    ('onsager/crystal.py', "        return not self.__eq__(other)\n\n    def __hash__(self):\n        \"\"\"Hash, so that we can make sets of group operations\"\"\"",
+     "        return self.__eq__(other)\n\n    def __hash__(self):\n        \"\"\"Hash, so that we can make sets of group operations\"\"\"", 'ne-negates-eq'),
+    ('onsager/crystal.py', "return hash(self.rot.data.tobytes()) ^ hash(self.indexmap)", "return hash(self.rot.data.tobytes()) ^ hash(tuple(self.trans))",
+     'hash-subset-exact-eq'),
+    ('onsager/crystalStars.py', "return hash((self.i, self.j) + tuple(self.R))", "return hash((self.i, self.j) + tuple(self.R) + tuple(self.dx))",
+     'hash-subset-exact-eq'),
+    ('onsager/crystalStars.py', "(self.i == other.i and self.j == other.j and np.all(self.R == other.R))", "(self.i == other.i and np.all(self.R == other.R))",
+     'eq-covers-fields'),
+    ('onsager/crystalStars.py', "return self.__class__(i=self.j, j=self.i, R=-self.R, dx=-self.dx)", "return self.__class__(i=self.j, j=self.i, R=-self.R, dx=self.dx)",
+     'arith-identity'),
+    ('onsager/crystalStars.py', "return self.__class__(i=other.j, j=self.j, R=self.R - other.R, dx=self.dx - other.dx)",
+     "return self.__class__(i=other.j, j=self.j, R=other.R - self.R, dx=self.dx - other.dx)", 'arith-identity'),
+    ('onsager/cluster.py', "hashcache ^= hash(r + shiftpos)", "hashcache ^= hash(r + tuple(cs.R))", 'cluster-hash-fold'),
+    ('onsager/cluster.py', "hashcache ^= hash(r + shiftpos)", "hashcache = 31 * hashcache - hash(r + shiftpos)", None),
+    ('onsager/OnsagerCalc.py', "np.allclose(self.preT, other.preT) and np.allclose(self.betaeneT, other.betaeneT)",
+     "np.allclose(self.preT, other.preT) and np.allclose(self.betaeneT, self.betaeneT)", None),
+]
+NEUTRALS = [
+    ('onsager/crystalStars.py', "return self.__class__(i=other.j, j=self.j, R=self.R - other.R, dx=self.dx - other.dx)",
+     "return self.__class__(i=other.j, j=self.j, R=-other.R + self.R, dx=-(other.dx - self.dx))"),
+    ('onsager/cluster.py', "        return not self.__eq__(other)\n\n    def __hash__(self):\n        \"\"\"Hash, so that we can make sets of states\"\"\"\n        # return self.i ^ (self.j << 1) ^ (self.R[0] << 2) ^ (self.R[1] << 3) ^ (self.R[2] << 4)\n        return hash(self.ci",
+     "        return not (self == other)\n\n    def __hash__(self):\n        \"\"\"Hash, so that we can make sets of states\"\"\"\n        # return self.i ^ (self.j << 1) ^ (self.R[0] << 2) ^ (self.R[1] << 3) ^ (self.R[2] << 4)\n        return hash(self.ci"),
+]
